@@ -195,7 +195,7 @@ impl Engine for C16 {
                 "variations (b)-(g) are fully controlled by the decision tape and replay exactly; a difference seen only across processes (h) can only be raised if two real outputs differ, but depends on process-level randomness (hasher keys, ASLR) that the simulator cannot seed: its replay is re-checked over 8 fresh processes",
             ],
             shrink: vec!["/history"],
-            quick: (1500, 150),
+            quick: (6000, 150),
             thorough: (50000, 1100),
         }
     }
